@@ -8,6 +8,8 @@ import (
 	"sort"
 	"strconv"
 
+	sentinel "github.com/alibaba/sentinel-golang/api"
+	"github.com/alibaba/sentinel-golang/core/base"
 	cb "github.com/alibaba/sentinel-golang/core/circuitbreaker"
 	"github.com/alibaba/sentinel-golang/core/outlier"
 	"github.com/alibaba/sentinel-golang/core/system"
@@ -32,6 +34,9 @@ type SysCase struct {
 type SysObs struct {
 	Changed, Err, Panicked bool
 	PerMetric              map[uint32][]system.Rule
+	// probe (after the last operation only): one inbound request after an idle gap
+	Probed, ProbeBlocked bool
+	ProbeBy              *system.Rule
 }
 
 func GenSys(r *rng.R, id int) SysCase {
@@ -115,6 +120,23 @@ func RunSys(c SysCase) []SysObs {
 		}
 		out = append(out, ob)
 	}
+	if len(out) > 0 && Clk != nil {
+		// idle gap longer than every statistic window: inbound QPS, concurrency and average RT read 0
+		Clk.AddMs(30000)
+		last := &out[len(out)-1]
+		last.Probed = true
+		e, b := sentinel.Entry("c13s-"+strconv.Itoa(c.ID), sentinel.WithTrafficType(base.Inbound))
+		if b != nil {
+			last.ProbeBlocked = true
+			if sr, ok := b.TriggeredRule().(*system.Rule); ok && b.BlockType() == base.BlockTypeSystemFlow {
+				x := *sr
+				last.ProbeBy = &x
+			}
+		} else {
+			e.Exit()
+		}
+		Clk.AddMs(30000)
+	}
 	system.LoadRules([]*system.Rule{})
 	return out
 }
@@ -174,7 +196,7 @@ func sysValid(t *system.Rule) bool {
 }
 
 func MonitorSys(c SysCase, obs []SysObs, rep *emit.Report) bool {
-	fail := func(clause, sig, detail string) { rep.Fail(c.ID, clause, sig, "system: "+detail, c) }
+	fail := func(clause, sig, detail string) { rep.Fail(c.ID, clause, sig, "system: "+detail, SysInput(c)) }
 	var expected []*system.Rule
 	sawInvalid, sawUnchanged := false, false
 	for k, o := range c.Ops {
@@ -202,7 +224,7 @@ func MonitorSys(c SysCase, obs []SysObs, rep *emit.Report) bool {
 				return false
 			}
 		}
-		if ob.Changed && !ob.Err {
+		if !ob.Err { // also on 'unchanged': the arguments then equal the cached ones
 			expected = nil
 			for _, t := range o.Rules {
 				if t != nil && sysValid(t) {
@@ -236,6 +258,35 @@ func MonitorSys(c SysCase, obs []SysObs, rep *emit.Report) bool {
 		if n != len(expected) {
 			fail("C13_enforced_eq_valid_latest", "enforced-differs-from-valid-latest", fmt.Sprintf("op %d: %d valid rules in the latest load, %d in force", k, len(expected), n))
 			return false
+		}
+	}
+	// probe: with no inbound traffic in any window, the request is rejected iff some valid rule of the
+	// latest load on inbound QPS / concurrency / average RT has a trigger count that 0 is not below,
+	// and then by such a rule (the module checks its rules in map order); load and CPU usage rules
+	// can not trigger (the collectors are off: both read -1)
+	if n := len(obs); n > 0 && obs[n-1].Probed {
+		var blockers []*system.Rule
+		for _, t := range expected {
+			if (t.MetricType == system.AvgRT || t.MetricType == system.Concurrency || t.MetricType == system.InboundQPS) && !(0 < t.TriggerCount) {
+				blockers = append(blockers, t)
+			}
+		}
+		p := obs[n-1]
+		if p.ProbeBlocked != (len(blockers) > 0) {
+			fail("C13_invalid_inert", "probe-decision-differs-from-valid-rules", fmt.Sprintf("inbound probe: blocked=%v, %d valid rules of the latest load reject it", p.ProbeBlocked, len(blockers)))
+			return false
+		}
+		if p.ProbeBlocked {
+			ok := false
+			for _, t := range blockers {
+				if p.ProbeBy != nil && p.ProbeBy.ID == t.ID {
+					ok = true
+				}
+			}
+			if !ok {
+				fail("C13_invalid_inert", "probe-blocked-by-wrong-rule", fmt.Sprintf("inbound probe blocked by %v, which is not a valid rejecting rule of the latest load", p.ProbeBy))
+				return false
+			}
 		}
 	}
 	return sawInvalid && sawUnchanged
@@ -464,7 +515,7 @@ func outSame(a, b *outlier.Rule) bool {
 }
 
 func MonitorOut(c OutCase, obs []OutObs, rep *emit.Report) bool {
-	fail := func(clause, sig, detail string) { rep.Fail(c.ID, clause, sig, "outlier: "+detail, c) }
+	fail := func(clause, sig, detail string) { rep.Fail(c.ID, clause, sig, "outlier: "+detail, OutInput(c)) }
 	expected := make([]*outlier.Rule, c.NRes+1)
 	sawInvalid, sawUnchanged := false, false
 	for k, o := range c.Ops {
@@ -478,14 +529,14 @@ func MonitorOut(c OutCase, obs []OutObs, rep *emit.Report) bool {
 				sawInvalid = true
 			}
 		}
-		if o.Rep && (o.Kind == "all" || (o.Res > 0 && len(o.Rules) > 0 && outValid(o.Rules[0]))) {
+		if o.Rep && (o.Kind == "all" || (o.Res > 0 && (len(o.Rules) == 0 || outValid(o.Rules[0])))) {
 			sawUnchanged = true
 			if ob.Changed || ob.Err {
 				fail("C13_identical_reload_unchanged", "identical-reload-reports-changed", fmt.Sprintf("op %d repeats op %d but returned changed=%v err=%v", k, k-1, ob.Changed, ob.Err))
 				return false
 			}
 		}
-		if ob.Changed && !ob.Err {
+		if !ob.Err { // also on 'unchanged': the arguments then equal the cached ones
 			if o.Kind == "all" {
 				for i := 1; i <= c.NRes; i++ {
 					expected[i] = nil
@@ -533,4 +584,83 @@ func MonitorOut(c OutCase, obs []OutObs, rep *emit.Report) bool {
 		}
 	}
 	return sawInvalid && sawUnchanged
+}
+
+// ---------------------------------------------------------------------------------------------
+// JSON-friendly renderings (rules in the notation of the Coq cases; NaN and func fields do not marshal)
+
+func SysInput(c SysCase) interface{} {
+	var ops []interface{}
+	for _, o := range c.Ops {
+		rs := []string{}
+		for _, t := range o.Rules {
+			if t == nil {
+				rs = append(rs, "nil")
+			} else {
+				rs = append(rs, sysCoq(t))
+			}
+		}
+		ops = append(ops, map[string]interface{}{"kind": "LoadRules", "nil_slice": o.Nil && len(o.Rules) == 0, "rules": rs, "identical_repeat_of_previous": o.Rep})
+	}
+	return map[string]interface{}{"id": c.ID, "module": "system", "ops": ops}
+}
+
+func SysObserved(obs []SysObs) interface{} {
+	var out []interface{}
+	for _, ob := range obs {
+		per := map[string][]string{}
+		for mt, l := range ob.PerMetric {
+			for i := range l {
+				per[strconv.Itoa(int(mt))] = append(per[strconv.Itoa(int(mt))], sysCoq(&l[i]))
+			}
+		}
+		o := map[string]interface{}{"changed": ob.Changed, "err": ob.Err, "panicked": ob.Panicked, "in_force_per_metric_type": per}
+		if ob.Probed {
+			by := "-"
+			if ob.ProbeBy != nil {
+				by = sysCoq(ob.ProbeBy)
+			}
+			o["probe"] = map[string]interface{}{"blocked": ob.ProbeBlocked, "by": by}
+		}
+		out = append(out, o)
+	}
+	return out
+}
+
+func OutInput(c OutCase) interface{} {
+	ri := resIndex(c.Res)
+	var ops []interface{}
+	for _, o := range c.Ops {
+		rs := []string{}
+		for _, t := range o.Rules {
+			if t == nil {
+				rs = append(rs, "nil")
+			} else {
+				rs = append(rs, outCoq(t, ri))
+			}
+		}
+		kind := "LoadRules"
+		if o.Kind == "res" {
+			kind = "LoadRuleOfResource"
+		}
+		ops = append(ops, map[string]interface{}{"kind": kind, "res": o.Res, "rules": rs, "identical_repeat_of_previous": o.Rep})
+	}
+	return map[string]interface{}{"id": c.ID, "module": "outlier", "resources": c.Res, "ops": ops}
+}
+
+func OutObserved(c OutCase, obs []OutObs) interface{} {
+	ri := resIndex(c.Res)
+	var out []interface{}
+	for _, ob := range obs {
+		per := []string{}
+		for _, t := range ob.Per {
+			if t == nil {
+				per = append(per, "-")
+			} else {
+				per = append(per, outCoq(t, ri))
+			}
+		}
+		out = append(out, map[string]interface{}{"changed": ob.Changed, "err": ob.Err, "panicked": ob.Panicked, "in_force_per_resource": per, "breaker_rule_map_consistent": ob.Consistent, "get_rules_count": ob.NAll})
+	}
+	return out
 }
